@@ -1395,6 +1395,12 @@ def c13_calls(ctx):
             lab = np.digitize(x, qs)
             return F.mef.selection_std, [('populations', [b[lab == i][:, 'FL1-H'] for i in range(4)])], {'scale': scale, 'n_std_low': 2.0}
         add('mef.selection_std', 'integer-samples-' + scale, pops_int, scale != 'log')
+
+        # populations holding zero / negative events (seeded change C13-4: the log rescaling saturates them in place)
+        def pops_nonpos(scale=scale):
+            return F.mef.selection_std, [('populations', [np.array([0.0, -3.0, 5.0, 7.0, 6.0]), np.array([50.0, 0.0, 60.0, 55.0]),
+                                                          np.array([500.0, 520.0, 480.0, -1.0])])], {'scale': scale, 'low': -10.0, 'high': 9000.0}
+        add('mef.selection_std', 'arrays-nonpositive-' + scale, pops_nonpos)
     add('mef.fit_beads_autofluorescence', 'arrays',
         lambda: (F.mef.fit_beads_autofluorescence, [('fl_rfi', np.array([4.0, 33.0, 290.0, 2500.0])), ('fl_mef', np.array([0.0, 800.0, 8000.0, 75000.0]))], {}))
     add('mef.fit_beads_autofluorescence', 'lists',
